@@ -46,7 +46,7 @@ func (g *oblGroup) status() string {
 	worst := "unsat"
 	for _, o := range g.Instances {
 		switch o.Status {
-		case "unsat":
+		case "unsat", "skipped":
 		case "sat":
 			return "sat"
 		case "disagree":
@@ -146,6 +146,12 @@ func runProperty(eng *Engine, verifDir, prop, tier string, updateLedger, verbose
 	sel := func(o *Obligation) bool { return matchAny(sre, o.Name) }
 	dischargeAll(fvs, sel, timeout, all, runtime.NumCPU())
 
+	for _, fv := range fvs {
+		if fv.vacuous {
+			fmt.Printf("ENGINE-FAULT contradictory assumptions in %s (vacuity guard)\n", fv.short)
+			return 2
+		}
+	}
 	// 2. group
 	groups := map[string]*oblGroup{}
 	outsideFuncs := map[string][]string{}
